@@ -1422,7 +1422,7 @@ class DependencyMapper(CombineMapper[R, Never, []]):
         return self.combine(frozenset([expr]), super().map_data_wrapper(expr))
 
     def map_size_param(self, expr: SizeParam) -> R:
-        return frozenset([expr])
+        return self.combine(frozenset([expr]))
 
     @override
     def map_stack(self, expr: Stack) -> R:
